@@ -12,6 +12,7 @@ import Knee.Model.GlobalCost
 import Knee.Model.ClusterFilter
 import Knee.Model.EvenPoints
 import Knee.Model.ZMethod
+import Knee.Model.Elbow
 /-
 Correspondence driver.  `lake env lean --run Driver.lean` (or the compiled `driver` exe).
 Harness → driver : `CALL <fn> <arg> <arg> …`
@@ -352,6 +353,24 @@ def dispatch (out inp : IO.FS.Stream) (fn : String) (args : List String) : M Str
     match zKnees xs ys zs w h ymin (fun k => thr[k]?.getD (thr.getLast?.getD 0)) thr.length with
     | some ks => pure (showNats ks)
     | none => pure "none"
+  | "elbowQ", [kind, xs, ys] =>
+    let xs ← orErr (parseList? parseRat? xs) "xs"
+    let ys ← orErr (parseList? parseRat? ys) "ys"
+    let x := fun i => xs[i]?.getD 0
+    let y := fun i => ys[i]?.getD 0
+    let n := xs.length
+    match kind with
+    | "curvature" => pure (toString (curvKneeQ x y n))
+    | "menger" => pure (toString (mengerKneeQ x y n))
+    | "lmethod" => pure (match lmethodKneeQ x y .adjusted n 10 with | some k => toString k | none => "none")
+    | _ => throw "kind"
+  | "gradQ", [xs, ys] =>
+    let xs ← orErr (parseList? parseRat? xs) "xs"
+    let ys ← orErr (parseList? parseRat? ys) "ys"
+    let x := fun i => xs[i]?.getD 0
+    let y := fun i => ys[i]?.getD 0
+    let n := xs.length
+    pure (showList showRat ((List.range n).map (cfdQ x y n)) ++ " " ++ showList showRat ((List.range n).map (csdQ x y n)))
   | _, _ => throw s!"unknown call {fn}/{args.length}"
 
 partial def loop (out inp : IO.FS.Stream) : IO Unit := do
